@@ -1152,7 +1152,26 @@ class Flow:
         nested = {n.name for n in ast.walk(node) if isinstance(n, (ast.FunctionDef, ast.ClassDef)) and n is not node}
         simple = lambda e: isinstance(e, (ast.Name, ast.Constant)) or (isinstance(e, ast.Attribute) and simple(e.value))  # noqa: E731
         direct = {p_: v for p_, v in bound.items() if p_ not in stored and simple(v)}
-        ren = {n: f"__{tag}_{n}__" for n in (set(stored) | set(bound)) - set(direct) - nested}
+        # the callee's own locals: names it binds (a free variable of a closure that is only mutated, `pending.clear()`, stays the caller's)
+        binds_: set[str] = set()
+
+        def _binds(n_: ast.AST) -> None:
+            if isinstance(n_, (ast.FunctionDef, ast.AsyncFunctionDef, ast.ClassDef, ast.Lambda)) and n_ is not node:
+                return
+            if isinstance(n_, (ast.ListComp, ast.SetComp, ast.GeneratorExp, ast.DictComp)):
+                for nn in ast.walk(n_):
+                    if isinstance(nn, ast.NamedExpr) and isinstance(nn.target, ast.Name):
+                        binds_.add(nn.target.id)
+                return
+            if isinstance(n_, ast.Name) and isinstance(n_.ctx, (ast.Store, ast.Del)):
+                binds_.add(n_.id)
+            for c_ in ast.iter_child_nodes(n_):
+                _binds(c_)
+
+        for b_ in node.body:
+            _binds(b_)
+        own = (binds_ | (set(stored) & set(bound))) if callee.parent is not None else set(stored)
+        ren = {n: f"__{tag}_{n}__" for n in (own | set(bound)) - set(direct) - nested}
 
         class R(ast.NodeTransformer):
             def visit_Name(self, n: ast.Name) -> ast.AST:
@@ -1217,6 +1236,15 @@ class Flow:
         if c is not None:
             return c
         f = call.func
+        if isinstance(f, ast.Name):
+            # a closure defined inside the analysed function (its free variables are the caller's locals: inlining at the call
+            # site is exactly the late binding Python performs)
+            for n in ast.walk(self.func.node):
+                if isinstance(n, ast.FunctionDef) and n is not self.func.node and n.name == f.id:
+                    try:
+                        return self.func.nested(f.id)
+                    except Exception:  # noqa: BLE001
+                        return None
         if self.repo is not None and isinstance(f, ast.Attribute) and isinstance(f.value, ast.Name):
             m = self.func.module
             owner = m.classes.get(f.value.id)
